@@ -1,5 +1,7 @@
 import P9Model.Conc.ConnInv
-import P9Model.Lemmas.LockFacts
+import P9Model.Lemmas.Lock.Leaf
+import P9Model.Lemmas.Lock.ChildMu
+import P9Model.Lemmas.Lock.Wire
 /-!
 # C06 — Exactly one tagged reply per request; requests served concurrently
 -/
@@ -53,6 +55,12 @@ happen with `sendMu` held, and no backend call runs under any leaf mutex
 (fidMu, tagMu, sendMu, recvMu, pendingMu, pool.mu) – so a request blocked in the backend cannot
 delay others through them. -/
 theorem leaf_mutexes_never_held_across_backend : Locks.leafOk = true := Locks.leaf_fact
+
+/-- O (**frames under the send lock**, regenerated): every call of the frame writer `send` on the
+server (both sites in handleRequest) and on the client happens with `sendMu` held, every call of
+the frame reader `recv` on the server with `recvMu` held (part of the lockset obligation), and
+those call sites are really present in the scripts. -/
+theorem frames_written_under_sendMu : (Locks.wireLocksetOk && Locks.wireSitesSeen) = true := Locks.wire_fact
 
 /-- a backend call under a node's `childMu` happens only inside a rename, which holds `renameMu`
 for write (global class: it is ordered after and before everything else anyway) -/
